@@ -103,6 +103,19 @@ fn source_files(seed: u64, case: &str, with_empty: bool, with_sig: bool, edge: b
     }
     // a name with non-ASCII upper- and lower-case letters (name maps must not fold it differently in source and target)
     v.push(SrcFile { name: "data\\\u{c9}t\u{e9}_\u{c4}\u{d6}\u{dc}\u{d1}.txt", data: gen_content("text", rng.range(100, 300) as usize, &mut rng), comp: cflags::ZLIB, enc: false, fix: false });
+    // a non-zero block of 129 / 257 / 385 bytes followed by zeros (run-length boundaries of the sparse codec), and a
+    // literal run of 128 KiB + 1 followed by zeros (thorough only: size)
+    for k in [129usize, 257, 385] {
+        let mut d: Vec<u8> = (0..k).map(|_| 1 + rng.below(255) as u8).collect();
+        d.extend(std::iter::repeat(0u8).take(700));
+        let name: &'static str = Box::leak(format!("sp\\s{k}.bin").into_boxed_str());
+        v.push(SrcFile { name, data: d, comp: cflags::ZLIB, enc: false, fix: false });
+    }
+    if thorough() {
+        let mut d: Vec<u8> = (0..(128 * 1024 + 1)).map(|_| 1 + rng.below(255) as u8).collect();
+        d.extend(std::iter::repeat(0u8).take(5000));
+        v.push(SrcFile { name: "sp\\lit128k.bin", data: d, comp: cflags::ZLIB, enc: false, fix: false });
+    }
     if pow > 0 {
         // the largest file of this source: incompressible, 4 bytes below a power of two (see Gen_Rebuild)
         let len = match pow {
@@ -153,11 +166,50 @@ fn main() {
         let edge = src.get("edge").map(|x| x.as_bool() == Some(true)).unwrap_or(false);
         let sbs = src.get("sbs").and_then(|x| x.as_i64()).unwrap_or(-1);
         let pow = src.get("pow").and_then(|x| x.as_i64()).unwrap_or(0);
-        let files = source_files(seed, &case, gb(src, "empty"), with_sig, edge, pow);
+        let mut files = source_files(seed, &case, gb(src, "empty"), with_sig, edge, pow);
+        // provenance of the source (Gen_Rebuild `prov`): built | modified | emb512 | emb1024 | superset
+        let prov = src.get("prov").and_then(|x| x.as_str()).unwrap_or("built").to_string();
+        let mut removed_after_build: Option<&'static str> = None;
+        if prov == "modified" {
+            // two names with the same home slot: X is inserted first, Y collides and lands behind it; X is removed in
+            // place afterwards, so Y sits behind a DELETED hash entry
+            let count = files.len() + 1 + gb(src, "at") as usize;
+            let hsize = ((count + 2) * 2).max(16).next_power_of_two() as u32;
+            let home = |n: &str| wow_mpq::crypto::hash_string(n, wow_mpq::crypto::hash_type::TABLE_OFFSET) & (hsize - 1);
+            let mut prng = Rng::derive(seed, &format!("{case}:mod"));
+            let start = prng.below(1000);
+            let x = format!("mod\\x{start}.bin");
+            let y = (0..200_000u64).map(|k| format!("mod\\y{}.bin", start + k)).find(|y| home(y) == home(&x)).unwrap_or_else(|| tool_error("no colliding name"));
+            let xs: &'static str = Box::leak(x.into_boxed_str());
+            let ys: &'static str = Box::leak(y.into_boxed_str());
+            files.insert(0, SrcFile { name: xs, data: gen_content("text", 300, &mut prng), comp: cflags::ZLIB, enc: false, fix: false });
+            files.insert(1, SrcFile { name: ys, data: gen_content("text", 400, &mut prng), comp: cflags::ZLIB, enc: false, fix: false });
+            removed_after_build = Some(xs);
+        }
         // ---- source archive
+        let lfpath = scratch.file(&format!("{case}-listfile.txt"));
+        let lfopt = if prov == "superset" {
+            // an external listfile naming every file of the archive and 300 files that are NOT in it
+            let mut txt = String::new();
+            for f in &files {
+                txt.push_str(f.name);
+                txt.push_str("\r\n");
+            }
+            for k in 0..300 {
+                txt.push_str(&format!("absent\\n{k:03}.dat\r\n"));
+            }
+            txt.push_str("(listfile)\r\n");
+            if gb(src, "at") {
+                txt.push_str("(attributes)\r\n");
+            }
+            std::fs::write(&lfpath, txt).unwrap_or_else(|e| tool_error(&format!("write listfile: {e}")));
+            ListfileOption::External(lfpath.clone())
+        } else {
+            ListfileOption::Generate
+        };
         let mut b = ArchiveBuilder::new()
             .version(version(gi(src, "ver")))
-            .listfile_option(ListfileOption::Generate)
+            .listfile_option(lfopt)
             .attributes_option(if gb(src, "at") { AttributesOption::GenerateCrc32 } else { AttributesOption::None });
         if sbs >= 0 {
             b = b.block_size(sbs as u16);
@@ -172,6 +224,35 @@ fn main() {
         if let Err(e) = b.build(&spath) {
             tool_error(&format!("case {case}: cannot build the source archive: {e:?}"));
         }
+        let _ = std::fs::remove_file(&lfpath);
+        if let Some(x) = removed_after_build {
+            // modification history: remove X in place (leaves a deleted hash entry in front of Y), add one more file
+            let r = guard(|| -> Result<(), Error> {
+                let mut m = wow_mpq::MutableArchive::open(&spath)?;
+                m.remove_file(x)?;
+                m.add_file_data(b"added in place, after the build", "mod\\added.txt", wow_mpq::AddFileOptions::new())?;
+                m.flush()
+            });
+            if !matches!(r, Outcome::Done(Ok(()))) {
+                tool_error(&format!("case {case}: cannot modify the source archive in place (C06 territory)"));
+            }
+            files.retain(|f| f.name != x);
+            files.push(SrcFile { name: "mod\\added.txt", data: b"added in place, after the build".to_vec(), comp: cflags::ZLIB, enc: false, fix: false });
+        }
+        if prov == "emb512" || prov == "emb1024" {
+            // the archive starts behind a prefix (e.g. an executable stub): all positions are relative to its header
+            let n = if prov == "emb512" { 512 } else { 1024 };
+            let body = std::fs::read(&spath).unwrap_or_else(|e| tool_error(&format!("read source: {e}")));
+            let mut whole = vec![0x55u8; n];
+            whole.extend_from_slice(&body);
+            std::fs::write(&spath, whole).unwrap_or_else(|e| tool_error(&format!("write source: {e}")));
+        }
+        // ground truth: the names the driver put into the archive (a listing that shows anything else is not as built)
+        let mut truth: Vec<String> = files.iter().map(|f| f.name.to_string()).collect();
+        truth.push("(listfile)".into());
+        if gb(src, "at") {
+            truth.push("(attributes)".into());
+        }
         // everything that touches the code under test runs under a watchdog: a call that does not return is data
         if HANGS.load(std::sync::atomic::Ordering::SeqCst) >= 6 {
             // several calls are already spinning in leaked threads: do not start more work on this tree
@@ -184,12 +265,20 @@ fn main() {
         let sp = spath.clone();
         let inspected = timed(move || -> Result<(Vec<String>, bool, Map<String, Value>, Vec<String>, Vec<String>), String> {
             let mut sa = Archive::open(&sp).map_err(|e| format!("open: {e:?}"))?;
-            let listed: Vec<String> = sa.list().map_err(|e| format!("list: {e:?}"))?.into_iter().map(|e| e.name).collect();
+            let shown: Vec<String> = sa.list().map_err(|e| format!("list: {e:?}"))?.into_iter().map(|e| e.name).collect();
+            let listed: Vec<String> = truth.clone();
             let hetbet = sa.het_table().is_some() && sa.bet_table().is_some();
             // tokens of what the source archive itself reads for every listed name
             let mut toks = Map::new();
             let mut enc: Vec<String> = vec![];
             let mut srcbad: Vec<String> = vec![];
+            {
+                let a: std::collections::BTreeSet<&String> = shown.iter().collect();
+                let b: std::collections::BTreeSet<&String> = listed.iter().collect();
+                if a != b {
+                    srcbad.push(format!("<listing differs from what was built: {} shown, {} built>", a.len(), b.len()));
+                }
+            }
             for n in &listed {
                 match sa.read_file(n) {
                     Ok(d) => {
@@ -231,7 +320,7 @@ fn main() {
             }
         };
         let sig: Vec<String> = listed.iter().filter(|n| n.as_str() == "(signature)" || n.as_str() == "(strong signature)").cloned().collect();
-        evs.push(json!({"ev":"Reset","case":case,"ver":gi(src,"ver"),"at":gb(src,"at"),"empty":gb(src,"empty"),"sigfile":with_sig,"sbs":sbs,"edge":edge,"pow":pow,"srcbad":srcbad,"hetbet":hetbet,
+        evs.push(json!({"ev":"Reset","case":case,"ver":gi(src,"ver"),"at":gb(src,"at"),"empty":gb(src,"empty"),"sigfile":with_sig,"sbs":sbs,"edge":edge,"pow":pow,"prov":prov,"srcbad":srcbad,"hetbet":hetbet,
             "listed":listed,"tok":Value::Object(toks),"enc":enc,"sig":sig}));
         // ---- rebuild
         let target = gi(o, "target");
@@ -248,6 +337,12 @@ fn main() {
                 "none" => Some(0),
                 "zlib" => Some(cflags::ZLIB),
                 "bzip2" => Some(cflags::BZIP2),
+                "sparse" => Some(cflags::SPARSE),
+                "lzma" => Some(cflags::LZMA),
+                "pkware" => Some(cflags::PKWARE),
+                "huffman" => Some(cflags::HUFFMAN),
+                "sparsezlib" => Some(cflags::SPARSE | cflags::ZLIB),
+                "sparsebzip2" => Some(cflags::SPARSE | cflags::BZIP2),
                 _ => None,
             },
             override_block_size: if bs < 0 { None } else { Some(bs as u16) },
